@@ -11,11 +11,8 @@ Theorem C09_order_independent : forall r enum1 enum2 roots1 roots2 names1 names2
   wf_b r = true -> small r ->
   contract r (walked roots1) enum1 -> contract r (walked roots2) enum2 ->
   reachable r (walked roots1) = reachable r (walked roots2) -> nrefs_of roots1 = nrefs_of roots2 ->
-  match scan r enum1 roots1 names1, scan r enum2 roots2 names2 with
-  | SOk e1, SOk e2 => history_of e1 = history_of e2
-  | SErr _, _ | _, SErr _ => False
-  | _, _ => True
-  end.
+  exists e1 e2, scan r enum1 roots1 names1 = SOk e1 /\ scan r enum2 roots2 names2 = SOk e2 /\
+                history_of e1 = history_of e2.
 Proof. exact order_independent. Qed.
 Print Assumptions C09_order_independent.
 
@@ -32,6 +29,6 @@ Print Assumptions C09_aggregation_order_free.
 (* nothing is left pending: no "records remain" / "not available" panic *)
 Theorem C09_nothing_pending : forall r enum roots names,
   wf_b r = true -> contract r (walked roots) enum -> small r ->
-  forall m, scan r enum roots names = SPanic m -> m = P_FUEL.
+  forall m, scan r enum roots names <> SPanic m.
 Proof. exact scan_no_panic. Qed.
 Print Assumptions C09_nothing_pending.
